@@ -565,6 +565,22 @@ pub fn c29_child(ei: usize, c: usize, scratch: &str) -> ! {
     } else {
         None
     };
+    // Entries taking the *inner* (private-batch) circuit from the caller together with its leaf count:
+    // the constructor's shape check (public inputs = 8 + 21 * leaves) must not stand in for the count
+    // bound, so for small invalid counts the inner circuit handed in has exactly the matching shape.
+    let matched: Option<(CircuitData<F, C, D>, ProofWithPublicInputs<F, C, D>)> = if matches!(ei, 19 | 23 | 26 | 29) && c != 1 && c <= 128 {
+        let (d, ts) = passthrough(8 + 21 * c);
+        let mut pw = PartialWitness::new();
+        for (i, t) in ts.iter().enumerate() {
+            pw.set_target(*t, if i == 0 { F::from_canonical_u64(2 * c as u64) } else { F::ZERO }).expect("set");
+        }
+        let p = d.prove(pw).expect("matched inner proof");
+        Some((d, p))
+    } else {
+        None
+    };
+    let inner = || -> &CircuitData<F, C, D> { matched.as_ref().map(|m| &m.0).unwrap_or_else(|| &fx().pb29) };
+    let inner_proof = || -> ProofWithPublicInputs<F, C, D> { matched.as_ref().map(|m| m.1.clone()).unwrap_or_else(|| fx().pb29_proof.clone()) };
     // silence the repo's progress printing
     let saved_out = unsafe {
         let s = libc::dup(1);
@@ -596,17 +612,17 @@ pub fn c29_child(ei: usize, c: usize, scratch: &str) -> ! {
                 }
                 17 => PrivateBatchCircuit::new(wormhole_private_batch_circuit_config(), &fx().leaf.common, &fx().leaf.verifier_only, c).is_ok(),
                 18 => PublicBatchCircuit::new(wormhole_public_batch_circuit_config(), fx().pb29.common.clone(), &fx().pb29.verifier_only, c, 1).is_ok(),
-                19 => PublicBatchCircuit::new(wormhole_public_batch_circuit_config(), fx().pb29.common.clone(), &fx().pb29.verifier_only, 1, c).is_ok(),
+                19 => PublicBatchCircuit::new(wormhole_public_batch_circuit_config(), inner().common.clone(), &inner().verifier_only, 1, c).is_ok(),
                 20 => PrivateBatchProver::new(wormhole_private_batch_circuit_config(), fx().leaf.common.clone(), &fx().leaf.verifier_only, c, fx().dummy_leaf.clone()).is_ok(),
                 21 => PrivateBatchProver::new_from_bytes(&leaf_common_bytes, &leaf_vo_bytes, &fx().dummy_leaf_bytes, c).is_ok(),
                 22 => PublicBatchProver::new(wormhole_public_batch_circuit_config(), fx().pb29.common.clone(), &fx().pb29.verifier_only, c, 1, fx().pb29_proof.clone()).is_ok(),
-                23 => PublicBatchProver::new(wormhole_public_batch_circuit_config(), fx().pb29.common.clone(), &fx().pb29.verifier_only, 1, c, fx().pb29_proof.clone()).is_ok(),
+                23 => PublicBatchProver::new(wormhole_public_batch_circuit_config(), inner().common.clone(), &inner().verifier_only, 1, c, inner_proof()).is_ok(),
                 24 => PublicBatchProver::new_from_bytes(&pb_common_bytes, &pb_vo_bytes, &pb_proof_bytes, (c, 1)).is_ok(),
                 25 => PublicBatchProver::new_from_bytes(&pb_common_bytes, &pb_vo_bytes, &pb_proof_bytes, (1, c)).is_ok(),
-                26 => ProofPool::new(fx().pb29.verifier_data(), c, 1, limits.clone()).is_ok(),
+                26 => ProofPool::new(inner().verifier_data(), c, 1, limits.clone()).is_ok(),
                 27 => ProofPool::new(fx().pb29.verifier_data(), 1, c, limits.clone()).is_ok(),
                 28 => agg_utils::canonical_private_batch_verifier_data(&fx().leaf_vd, c).is_ok(),
-                29 => agg_utils::canonical_public_batch_verifier_data(&fx().pb29.verifier_data(), c, 1).is_ok() || agg_utils::canonical_public_batch_verifier_data(&fx().pb29.verifier_data(), 1, c).is_ok(),
+                29 => agg_utils::canonical_public_batch_verifier_data(&fx().pb29.verifier_data(), c, 1).is_ok() || agg_utils::canonical_public_batch_verifier_data(&inner().verifier_data(), 1, c).is_ok(),
                 30 => agg_utils::load_canonical_private_batch_verifier_data(&pb_common_bytes, &pb_vo_bytes, &fx().leaf_vd, c).is_ok(),
                 31 => {
                     wormhole_aggregator::private_batch::circuit::build::generate_private_batch_circuit_binaries(&out_dir, c, false).is_ok()
